@@ -322,11 +322,16 @@ class Dispatcher:
 
     def set_all_log_levels(self, conn, level):
         for modobj in self.secnode.modules.values():
-            modobj.setRemoteLogging(conn, level, self.send_log_msg)
+            # modules which are not exported are not visible, neither are their log messages
+            # (switching off is done for all modules: used when resetting a connection)
+            if level == 'off' or modobj.export:
+                modobj.setRemoteLogging(conn, level, self.send_log_msg)
 
     def handle_logging(self, conn, specifier, level):
         if specifier and specifier != '.':
             modobj = self.secnode.modules[specifier]
+            if not modobj.export:
+                raise NoSuchModuleError(f'Module {specifier!r} does not exist')
             modobj.setRemoteLogging(conn, level, self.send_log_msg)
         else:
             self.set_all_log_levels(conn, level)
